@@ -307,7 +307,15 @@ theorem join_ok_entries_eq {l l' : Log} {oid : Bytes} {E H : List Entry} {size :
 
 theorem join_ok_heads_sub {l l' : Log} {oid : Bytes} {E H : List Entry} {size : Int} {valid : Entry → Bool}
     (hs : ¬ size > -1) (hj : join l oid E H size valid = .ok l') :
-    ∀ x ∈ l'.heads, x ∈ l.heads ∨ x ∈ H := by
+    ∀ x ∈ l'.heads, x ∈ l.heads ∨ (x ∈ l'.entries ∧ x.hash ∈ hashes H) := by
+  have hne : ¬ l.id = oid → ∀ x ∈ l'.heads, x ∈ l.heads ∨ (x ∈ l'.entries ∧ x.hash ∈ hashes H) := by
+    intro hid
+    unfold join at hj
+    rw [if_pos hid] at hj
+    injection hj with hj; subst hj; exact fun x hx => Or.inl hx
+  by_cases hid : l.id = oid
+  case neg => exact hne hid
+  have hent := join_ok_entries_eq hs hid hj
   unfold join at hj
   split at hj
   · injection hj with hj; subst hj; exact fun x hx => Or.inl hx
@@ -331,7 +339,9 @@ theorem join_ok_heads_sub {l l' : Log} {oid : Bytes} {E H : List Entry} {size : 
         · rcases mem_foldl_omSet _ [] h3 with h4 | h4
           · cases h4
           · exact Or.inl h4
-        · exact Or.inr h3
+        · obtain ⟨hd, hhd, hg⟩ := List.mem_filterMap.mp h3
+          obtain ⟨hm, hh⟩ := get?_some hg
+          exact Or.inr ⟨by rw [hent]; exact hm, List.mem_map.mpr ⟨hd, hhd, hh.symm⟩⟩
 
 /-- the hashes that are in the destination or were selected by `difference` -/
 theorem join_covers {E1 E2 H1 : List Entry} {dest : Log} (hn : NodupH E2) (hsub : ∀ e ∈ E1, e ∈ E2)
